@@ -25,7 +25,7 @@ import (
 // ---------------------------------------------------------------- zip tree
 
 type ztOp struct {
-	Kind string // put | get | ascend
+	Kind string // put | get | ascend | rmw (a scan that is consumed lazily and overwrites keys that exist while it runs: the current one and ones still ahead; Val is the pattern)
 	Key  []byte
 	Val  []byte
 }
@@ -43,10 +43,16 @@ func genZT(rt *rapid.T) ztProg {
 	}
 	n := rapid.IntRange(1, 60).Draw(rt, "n")
 	for i := 0; i < n; i++ {
-		k := rapid.SampledFrom([]string{"put", "put", "put", "get", "ascend"}).Draw(rt, "kind")
+		k := rapid.SampledFrom([]string{"put", "put", "put", "put", "put", "put", "get", "get", "ascend", "ascend", "rmw"}).Draw(rt, "kind")
 		op := ztOp{Kind: k, Key: hx.Key(rt, "key")}
 		if k == "put" {
 			op.Val = hx.Value(rt, "val")
+		}
+		if k == "rmw" {
+			op.Val = rapid.SliceOfN(rapid.Byte(), 1, 6).Draw(rt, "pattern")
+			if rapid.Bool().Draw(rt, "whole") {
+				op.Key = nil
+			}
 		}
 		p.Ops = append(p.Ops, op)
 	}
@@ -64,7 +70,7 @@ func execZT(p ztProg, c *hx.Case) error {
 	defer verifhook.SetTuner(nil)
 	zt := ziptree.New()
 	model := map[string][]byte{}
-	replaces := 0
+	replaces, rmwWrites := 0, 0
 	checkAscend := func(prefix []byte) error {
 		var want []string
 		for _, k := range hx.SortedKeys(model) {
@@ -109,6 +115,46 @@ func execZT(p ztProg, c *hx.Case) error {
 			if err := checkAscend(op.Key); err != nil {
 				return fmt.Errorf("step %d: %w", step, err)
 			}
+		case "rmw":
+			// A read-modify-write loop over a prefix: the scan is consumed lazily and
+			// the loop body overwrites keys that exist (no key appears or disappears):
+			// the scan still yields every key under the prefix once, in order.
+			var want []string
+			for _, k := range hx.SortedKeys(model) {
+				if bytes.HasPrefix([]byte(k), op.Key) {
+					want = append(want, k)
+				}
+			}
+			var got []string
+			overwritten := map[string][][]byte{} // every value a key has held since the scan began
+			i := 0
+			for n := range zt.AscendPrefix(op.Key) {
+				got = append(got, string(n.Key))
+				if !bytes.Equal(n.Value, model[string(n.Key)]) && !slices.ContainsFunc(overwritten[string(n.Key)], func(v []byte) bool { return bytes.Equal(v, n.Value) }) {
+					return hx.Errf("step %d: read-modify-write scan of %q: key %q has value %q, model %q", step, op.Key, n.Key, n.Value, model[string(n.Key)])
+				}
+				b := op.Val[i%len(op.Val)]
+				var targets []string
+				if b&1 == 1 {
+					targets = append(targets, string(n.Key))
+				}
+				if b&2 == 2 && i+1 < len(want) && i < len(want) && want[i] == string(n.Key) {
+					targets = append(targets, want[min(len(want)-1, i+1+int(b>>2)%3)])
+				}
+				for _, tk := range targets {
+					nv := []byte(fmt.Sprintf("w%d.%d", step, i))
+					overwritten[tk] = append(overwritten[tk], model[tk])
+					if rep := zt.Put(ziptree.NewNode([]byte(tk), nv, step)); rep == nil {
+						return hx.Errf("step %d: Put(%q) during a scan replaced nothing, the key exists", step, tk)
+					}
+					model[tk] = nv
+					rmwWrites++
+				}
+				i++
+			}
+			if !slices.Equal(got, want) {
+				return hx.Errf("step %d: a scan of %q whose loop body overwrote existing keys (pattern %v) yielded %q, the keys under the prefix are %q", step, op.Key, op.Val, got, want)
+			}
 		}
 		// every key inserted so far is retrievable
 		for k, v := range model {
@@ -125,11 +171,12 @@ func execZT(p ztProg, c *hx.Case) error {
 		c.NonTrivial()
 	}
 	c.LabelIf(replaces > 0, "replace")
+	c.LabelIf(rmwWrites > 0, "existing-key-overwritten-while-a-scan-is-suspended")
 	return nil
 }
 
 func TestPropZipTree(t *testing.T) {
-	hx.Run(t, hx.Spec{Prop: "C19", Rule: "Put/Get/AscendPrefix sequences (<=60 ops) over adversarial byte keys with generator-chosen ranks (tied or spread) vs map+sort; non-trivial = >=1 replace and >=3 keys"}, genZT, execZT)
+	hx.Run(t, hx.Spec{Prop: "C19", Rule: "Put/Get/AscendPrefix sequences (<=60 ops) over adversarial byte keys with generator-chosen ranks (tied or spread) vs map+sort, including scans that are consumed lazily while their loop body overwrites existing keys (the current one and ones still ahead); non-trivial = >=1 replace and >=3 keys"}, genZT, execZT)
 }
 
 // ---------------------------------------------------------------- heap
